@@ -259,6 +259,7 @@ def proj_model_tok(tok, decode):
 
 
 def run(ctx):
+    ctx.regen(["c38"])      # K-gen: Gen/C38.v from the current source; its obligations are theorems of Props/C38.v
     ctx.prove("C38")
     model = ctx.model("c38")
     impl = ctx.harness("c38")
